@@ -25,20 +25,26 @@ use std::time::{Duration, Instant};
 pub struct RawAny {
     pub text: RawText,
     pub injections: Vec<(u8, u16, u16)>,
+    /// map all names into a 3-name pool first (many simultaneous clashes of the same kind)
+    pub collapse: bool,
 }
 
 const ALL_FAMILIES: &[u8] = &[0, 0, 0, 1, 2, 3, 4, 5, 6, 7];
 
 fn raw_any() -> impl Strategy<Value = RawAny> {
-    (raw_text(ALL_FAMILIES), proptest::collection::vec((0u8..16, any::<u16>(), any::<u16>()), 0..=3))
-        .prop_map(|(text, injections)| RawAny { text, injections })
+    (raw_text(ALL_FAMILIES), proptest::collection::vec((0u8..16, any::<u16>(), any::<u16>()), 0..=3), prop::bool::weighted(0.1))
+        .prop_map(|(text, injections, collapse)| RawAny { text, injections, collapse })
 }
 
 /// The text of a case and a label for its origin.
 fn any_text(raw: &RawAny) -> (String, &'static str) {
-    if raw.text.family == 0 && !raw.injections.is_empty() {
+    if raw.text.family == 0 && (!raw.injections.is_empty() || raw.collapse) {
         let opts = crate::textgen::DecorOpts { attrs: true, types: true, pool_names: true, max_type_depth: 3 };
         let (_, _, mut file) = super::frontend::decorated_file(&raw.text, opts);
+        if raw.collapse {
+            let mut ch = crate::layout::Chooser::new(&raw.text.soup);
+            super::frontend::collapse_names(&mut file, &mut ch);
+        }
         for i in &raw.injections {
             inject(&mut file, *i);
         }
@@ -431,14 +437,32 @@ fn c14_test(raw: &RawAny, st: &mut Stats) -> Result<(), Failure> {
 const C14_FAMILIES: &[u8] = &[0, 0, 0, 0, 1, 3];
 
 fn raw_c14() -> impl Strategy<Value = RawAny> {
-    (raw_text(C14_FAMILIES), proptest::collection::vec((0u8..16, any::<u16>(), any::<u16>()), 0..=2))
-        .prop_map(|(mut text, injections)| {
+    (
+        raw_text(C14_FAMILIES),
+        proptest::collection::vec((0u8..16, any::<u16>(), any::<u16>()), 0..=4),
+        0u8..4,
+        prop::bool::weighted(0.2),
+    )
+        .prop_map(|(mut text, mut injections, mode, collapse)| {
             // bias towards larger grammars: more hash buckets, order differences more likely
             if text.grammar.source & 1 == 0 && text.grammar.nts.len() < 4 {
                 text.grammar.source |= 1;
             }
-            let injections = if text.soup.first().map_or(true, |x| x % 3 != 0) { vec![] } else { injections };
-            RawAny { text, injections }
+            match mode {
+                // no static violation
+                0 => injections.clear(),
+                // several violations of the SAME kind: whichever of them a hash collection yields first would be reported
+                1 | 2 => {
+                    if let Some(k) = injections.first().map(|x| x.0) {
+                        for i in injections.iter_mut() {
+                            i.0 = k;
+                        }
+                    }
+                }
+                // independent violations
+                _ => {}
+            }
+            RawAny { text, injections, collapse }
         })
 }
 
